@@ -407,6 +407,11 @@ func runC17(c *core.Ctx) {
 	c.Group("started-url-shapes-and-long-indices")
 	// (paths with empty or dot segments are left out: net/http's Redirect cleans those itself, as its ServeMux does before any handler runs)
 	shapes := []string{"/docs/", "/docs/sub/", "/?q=1", "/x?next=https://other.example/x", "/x?a=/../b&c=//d", "/x;param=1", "/x%20y/", "/x?%2F=%2f", "/x/?", "/x?", "/%2e%2e/y", "/x?a=b#not-sent", "/x?a=./b&c=../d/"}
+	// long URLs (a search with a long query, a deep path): what the token records is the whole of it at every length
+	for _, n := range []int{500, 1000, 2000, 2400, 2500, 2600, 2700, 3000, 3500, 3900, 4096, 6000} {
+		shapes = append(shapes, "/search?q="+strings.Repeat("x", n)+"&page=2")
+	}
+	shapes = append(shapes, "/"+strings.Repeat("deep/", 600)+"leaf?k=v", "/x?"+strings.Repeat("a=1&", 700)+"z=26")
 	longPfx := strings.Repeat("t", 70)
 	longIdx := []string{"", longPfx + "-0123456789", longPfx + "-0123456789-and-more-than-that-0123456789", strings.Repeat("u", 200)}
 	for si, u := range shapes {
